@@ -143,8 +143,8 @@ struct GenOpts
     double mag_cap = 1e3;
 };
 
-static const char *kDataClassNames[] = {"random", "sparse", "collinear_repeated", "large_offset", "big_magnitude", "zero_bc", "axis_aligned"};
-constexpr int kNumDataClasses = 7;
+static const char *kDataClassNames[] = {"random", "sparse", "collinear_repeated", "large_offset", "big_magnitude", "zero_bc", "axis_aligned", "constant_axis"};
+constexpr int kNumDataClasses = 8;
 
 inline Problem genProblem(Rng &r, int order, int dim, int N, const GenOpts &o = GenOpts(), int *pattern_out = nullptr,
                           int *dclass_out = nullptr)
@@ -265,6 +265,18 @@ inline Problem genProblem(Rng &r, int order, int dim, int N, const GenOpts &o = 
         }
         if (r.coin())
             fillBC(1.0);
+        break;
+    }
+    case 7: // planar / constrained motion: one coordinate is exactly constant over all waypoints, its boundary derivatives are not
+    {
+        for (int i = 0; i <= N; ++i)
+            for (int j = 0; j < dim; ++j)
+                p.P(i, j) = 2.0 * r.normal();
+        int j = r.range(0, dim - 1);
+        double v = r.coin() ? 0.0 : std::round(8 * r.normal()) / 4;
+        for (int i = 0; i <= N; ++i)
+            p.P(i, j) = v;
+        fillBC(1.0);
         break;
     }
     default: // zero boundary derivatives, random waypoints
